@@ -3,6 +3,9 @@
 package cl
 
 import (
+	"math"
+	"math/big"
+
 	"github.com/ohler55/slip"
 )
 
@@ -17,9 +20,9 @@ func init() {
 			Name: "gcd",
 			Args: []*slip.DocArg{
 				{Name: "&rest"},
-				{Name: "integers", Type: "fixnum"},
+				{Name: "integers", Type: "integer"},
 			},
-			Return: "fixnum",
+			Return: "integer",
 			Text:   `__gcd__ returns the greatest common divisor of _integers_.`,
 			Examples: []string{
 				"(gcd) => 0",
@@ -39,8 +42,9 @@ func (f *Gcd) Call(s *slip.Scope, args slip.List, depth int) slip.Object {
 	z := slip.Fixnum(0)
 	for i, a := range args {
 		num, ok := a.(slip.Fixnum)
-		if !ok {
-			slip.TypePanic(s, depth, "integers", a, "fixnum")
+		if !ok || num == math.MinInt64 {
+			// Either not a fixnum or a fixnum that can not be negated.
+			return bigGcd(s, args, depth)
 		}
 		if num < 0 {
 			num = -num
@@ -59,4 +63,19 @@ func gcd(x, y slip.Fixnum) slip.Fixnum {
 		x, y = y, x%y
 	}
 	return x
+}
+
+func bigGcd(s *slip.Scope, args slip.List, depth int) slip.Object {
+	var z big.Int
+	for _, a := range args {
+		switch ta := a.(type) {
+		case slip.Fixnum:
+			_ = z.GCD(nil, nil, &z, big.NewInt(int64(ta)))
+		case *slip.Bignum:
+			_ = z.GCD(nil, nil, &z, (*big.Int)(ta))
+		default:
+			slip.TypePanic(s, depth, "integers", a, "integer")
+		}
+	}
+	return canonicalInteger(&z)
 }
